@@ -286,8 +286,8 @@ def cmd_run(prop, tier):
         env.update({"VF_TIER": tier, "VF_SEED": str(seed), "VF_STATS": os.path.join(sd, "stats.json"),
                     "VF_OUT": sd, "VF_KNOWN": ";".join(known_keys), "VF_SHARD": str(s), "VF_SHARDS": str(shards)})
         env.setdefault("GODEBUG", "randseednop=0")
-        if part.get("inflight"):
-            env["VF_INFLIGHT"] = "1"
+        if part.get("inflight", part.get("kind", "rapid") == "rapid"):
+            env["VF_INFLIGHT"] = "1"  # the case in progress is on disk, so a process that dies names its input
         params = dict(part.get("params", {}))
         params.update(cfg.get("params", {}))
         if params:
@@ -442,7 +442,13 @@ def cmd_run(prop, tier):
         elif rc == -9 or "panic: test timed out" in out:
             infra.append("%s shard %d: timed out (budget hit => inconclusive)\n%s" % (test, s, out[-1500:]))
         else:
-            infra.append("%s shard %d: exit %s without a captured case\n%s" % (test, s, rc, out[-3000:]))
+            keep = os.path.join(BUILD, "last-infra-%s-s%d.log" % (test, s))
+            try:
+                open(keep, "w").write(out)
+            except OSError:
+                pass
+            heads = [l for l in out.splitlines() if l.startswith(("panic:", "fatal error:", "runtime:", "signal:", "SIG"))][:5]
+            infra.append("%s shard %d: exit %s without a captured case (full output kept in %s)\n%s\n%s" % (test, s, rc, keep, "\n".join(heads), out[-2000:]))
 
     # a part whose cases are mostly inconclusive (environment preconditions unmet) has not checked anything
     for test, m in merged.items():
